@@ -66,11 +66,18 @@ CLAIM = dict(
          'few-bit entries around 2^-531 whose pairwise products are subnormal). KEPT OUT (not covered by the property text, which '
          'starts at d = 2 and speaks of float tensors): accuracy for d = 1 (act_two.sub of one-core tensors is not a TT-tensor and '
          'accuracy raises ValueError); int64 cores with entries above 2^5 (numpy integer products wrap around silently beyond 2^31, '
-         'also in the plain mul_scalar). REPORTED TO THE LEAD, generators stay clear of it: cores whose entries are below 2^-511 or '
-         'above 2^+511 (their squares leave the normal double range before any stabilisation happens): generic mantissas around '
+         'also in the plain mul_scalar). KNOWN FINDING (key C16/entries-beyond-sqrt-range), generators of the other families stay clear of it: cores whose '
+         'entries are below 2^-511 or above 2^+511, or two cores multiplied before any rescaling whose entries multiply outside the '
+         'normal double range (their squares / products leave the range before the first stabilisation): generic mantissas around '
          '1e-160 give norm / mul_scalar(use_stab) with relative error 1e-4, orthogonalize(use_stab) feeds the raw first core to '
          'LAPACK QR and returns 2^p Z off by 6.6e-5 (entries 2^-531) up to 0.29 (entries 2^-537), entries 2^+600 give NaN and a '
-         'ValueError from core_stab.',
+         'ValueError from core_stab; seven fixed regression inputs are in the search, and a failure is tagged with the key only on '
+         'inputs of exactly this family (sqrt_range_family). For orthogonalize this family contains the one of '
+         'C04/stab-adjacent-scale-overflow (adjacent cores whose scales multiply beyond the double range: its inputs, 2^512 and '
+         '2^-540 per core, are inside |log2 entry| > 511): the same root cause - the rescaling comes after the product - seen from '
+         'C04; the C16 family is wider (QR of a tiny first core, norm / mul_scalar / accuracy / truncate). Two known-finding keys '
+         'may be printed for C16: this one and C16/stab-mantissa-underflow-across-blocks (the accuracy(Y, Y) defect was repaired, '
+         '0f9009d, and is in the verdict); C04 prints its own.',
     technique='Coq proof (induction over the chain, ring-generic + Reals) + exact dyadic correspondence + bit-exact PrimFloat '
               'correspondence + Fraction / big-integer reference search')
 TRUSTED = ['Coq 8.16.1 kernel + vm_compute (case evaluation only)',
@@ -1280,6 +1287,11 @@ TOL = 1e-9
 # so a rank component more than 2^1074 below the largest one on some bond underflows inside the mantissa vector and is lost
 # even if it dominates at the end.  Failures of exactly this family (see bond_spread) carry this key.
 KEY_UNDERFLOW = 'C16/stab-mantissa-underflow-across-blocks'
+# known finding: the stabilised routines square / multiply cores (and hand the first core to LAPACK) before the first
+# rescaling, so a core with |log2 entry| > 511, or two cores (adjacent in one tensor, or at the same position of the two
+# arguments) whose entries multiply outside the normal double range, lose the value although every entry, the total and the
+# exact result are representable.  Failures on exactly such inputs (sqrt_range_family) carry this key.
+KEY_SQRT = 'C16/entries-beyond-sqrt-range'
 SQRT2_UP = 1.4142135623730952
 
 
@@ -1906,6 +1918,39 @@ def chk_history(tn, inp):
     return None
 
 
+def _lg_range(G):
+    nz = np.abs(G.arr[G.arr != 0])
+    return (floor_log2(nz.max()), floor_log2(nz.min())) if nz.size else None
+
+
+def sqrt_range_family(kind, inp):
+    """the known finding C16/entries-beyond-sqrt-range, and nothing else: all entries finite and (a) some core has a non-zero
+    entry with |floor(log2)| > 511, or (b) two cores that get multiplied before any rescaling - adjacent cores of one tensor
+    (orthogonalize / truncate: R-factor times next core, sizes included) or the cores at the same position of the two arguments
+    (mul_scalar / accuracy; the same tensor twice for norm) - have entries whose product leaves [2^-1022, 2^1021]"""
+    slots = dict(mul_scalar=[0, 1], norm=[0], accuracy=[0, 1], orth=[0], truncate=[0], shift=[0, 1], forms=[0, 1], history=[0, 1]).get(kind)
+    if not slots:
+        return False
+    try:
+        Ys = [tts(inp[i]) for i in slots if inp[i] is not None]
+        if not all(np.all(np.isfinite(G.arr)) for Y in Ys for G in Y):
+            return False
+        R = [[_lg_range(G) for G in Y] for Y in Ys]
+        if any(r is not None and (abs(r[0]) > 511 or abs(r[1]) > 511) for Rs in R for r in Rs):
+            return True
+
+        def out(a, b):
+            return a is not None and b is not None and (a[0] + b[0] > 1018 or a[1] + b[1] < -1022)
+        for Rs in R:
+            if any(out(Rs[j], Rs[j + 1]) for j in range(len(Rs) - 1)):
+                return True
+        if len(R) == 2 and any(out(x, y) for x, y in zip(R[0], R[1])):
+            return True
+    except Exception:       # noqa
+        pass
+    return False
+
+
 CHECKS = dict(core_stab=chk_core_stab, mul_scalar=chk_mul_scalar, norm=chk_norm, accuracy=chk_accuracy, shift=chk_shift,
               orth=chk_orth, truncate=chk_truncate, forms=chk_forms, history=chk_history)
 TENSOR_SLOTS = dict(mul_scalar=[0, 1], norm=[0], accuracy=[0, 1], truncate=[0])
@@ -2060,6 +2105,16 @@ def search_jobs(rng, th, deep):
     A = [Core(1, 1, 1, k=-60, cs=[1]) for _ in range(10)] + [Core(1, 1, 1, k=60, cs=[1]) for _ in range(11)]
     B = [Core(1, 1, 1, k=0, cs=[1]) for _ in range(21)]
     J.append(('accuracy', [tt_desc(A), tt_desc(B)]))
+    # regression inputs of the known finding C16/entries-beyond-sqrt-range (entries beyond 2^+-511)
+    def full(v, k):
+        return [Core(1, 2, 1, arr=np.full((1, 2, 1), v)).desc() for _ in range(k)]
+    J.append(('orth', [full(2.0 ** -537, 3), 2], KEY_SQRT))
+    J.append(('norm', [full(1e-160, 4), False], KEY_SQRT))
+    J.append(('mul_scalar', [full(1e-160, 4), None, False], KEY_SQRT))
+    J.append(('norm', [full(1.0, 1) + full(2.0 ** 600, 1), True], KEY_SQRT))
+    J.append(('norm', [full(2.0 ** -1060, 1) + full(2.0 ** 100, 1), True], KEY_SQRT))
+    J.append(('orth', [full(2.0 ** -1060, 1) + full(2.0 ** 100, 1), 1], KEY_SQRT))
+    J.append(('truncate', [full(2.0 ** -531, 4), 1e-6, None, True], KEY_SQRT))
     # --- shift law
     for _ in range(6 * mult):
         d = rng.choice([2, 3, 6, 25, 120])
@@ -2098,9 +2153,10 @@ def search_jobs(rng, th, deep):
         J.append(('truncate', [tt_desc(spread_shift(Yg, t)), 1e-4, None, True]))
         J.append(('shift', [tt_desc(Yg), None, rng.randrange(d), rng.choice([-480, 480])]))
     for d in (1, 2, 3, 4):
+        # exact although inside the sqrt-range family (power-of-two squared norms): must hold, never tagged as known (key False)
         Y = gen_r1_self(rng, d, 'sqsub')
-        J.append(('norm', [tt_desc(Y), True]))
-        J.append(('mul_scalar', [tt_desc(Y), None, True]))
+        J.append(('norm', [tt_desc(Y), True], False))
+        J.append(('mul_scalar', [tt_desc(Y), None, True], False))
     for d in (1, 1, 2):
         Y = gen_float(rng, d, rng.choice(['up', 'down', 'tiny', 'big']), rmax=1, nmax=3)
         J.append(('norm', [tt_desc(Y), False]))
@@ -2149,11 +2205,15 @@ def search(R, ctx, deep, hints):
     for n, job in enumerate(jobs):
         kind, inp, key = job if len(job) == 3 else job + (None,)
         by_kind[kind] = by_kind.get(kind, 0) + 1
-        f = _run(tn, kind, inp, key)
+        f = _run(tn, kind, inp, key or None)
         if not f:
             continue
-        if not f.get('finding_key') and underflow_family(tn, kind, inp):
+        if key is False:
+            pass
+        elif not f.get('finding_key') and underflow_family(tn, kind, inp):
             f['finding_key'] = KEY_UNDERFLOW
+        if key is not False and not f.get('finding_key') and sqrt_range_family(kind, inp):
+            f['finding_key'] = KEY_SQRT
         if f.get('finding_key'):
             nknown += 1
         else:
